@@ -18,7 +18,7 @@ static void dump_stats() {
   fprintf(f, "]}\n"); fclose(f);
 }
 extern "C" int LLVMFuzzerInitialize(int *, char ***) {
-  atexit(dump_stats); setenv("HWLOC_DONT_ADD_VERSION_INFO", "1", 1);
+  atexit(dump_stats); setenv("HWLOC_DONT_ADD_VERSION_INFO", "1", 1); (void)rich_xml();
   // hashes of the unmutated exports (seed corpus): for them an inconsistent topology is a violation, never F-C06-h
   const char *sd = getenv("VERIF_SEED_DIR"); if (sd) { DIR *d = opendir(sd); struct dirent *e; while (d && (e = readdir(d))) { std::string p = std::string(sd) + "/" + e->d_name; FILE *f = fopen(p.c_str(), "rb"); if (!f) continue; std::string s; char b[65536]; size_t n; while ((n = fread(b, 1, sizeof b, f)) > 0) s.append(b, n); fclose(f); if (s.size() > 1) export_hashes.insert(h64((const uint8_t *)s.data() + 1, s.size() - 1)); } if (d) closedir(d); }
   return 0;
@@ -58,8 +58,7 @@ extern "C" int LLVMFuzzerTestOneInput(const uint8_t *data, size_t size) {
     } else {
       n_rej_late++;
       // a failed load leaves a topology that may be configured and loaded again
-      if (hwloc_topology_set_synthetic(t, "pack:2 core:2 pu:2") != 0) fail_cb("reconfigure_after_failure", "set_synthetic after a failed XML load failed");
-      if (hwloc_topology_load(t) != 0) fail_cb("reload_after_failure", "load after a failed XML load failed");
+      reload_after_failure(t, (unsigned)(xl + cfg), fail_cb);
       WFError e; wf_check(t, e); if (!e.ok()) fail_cb("wf", ("topology loaded after a failed XML load is ill-formed: " + e.msgs[0]).c_str()); hwloc_topology_check(t);
     }
   } else n_rej_early++;
